@@ -362,7 +362,7 @@ func runC10(p *c10Params) *core.Result {
 			if t.Path() != pth {
 				res.Fail("C10", "path-bijection", "ParseTilePath accepts a non-canonical path", "ParseTilePath(%q) = %+v whose Path() is %q", pth, t, t.Path())
 			}
-			if t.H < 1 || t.H > 30 || t.L < -1 || t.N < 0 || t.W < 1 || t.W > 1<<uint(t.H) {
+			if t.H < 1 || t.H > 30 || t.L < -1 || t.L > 63 || t.N < 0 || t.W < 1 || t.W > 1<<uint(t.H) {
 				res.Fail("C10", "path-bijection", "ParseTilePath returns an invalid tile", "ParseTilePath(%q) = %+v", pth, t)
 			}
 			res.Probes["mutated-path-accepted"]++
@@ -439,6 +439,9 @@ func c10MutatePath(h int, a, b uint64) string {
 	s := t.Path()
 	switch b % 12 {
 	case 0:
+		if t.L >= 0 && b>>8%3 == 0 { // a level no tile has (documented: -1 <= L <= 63)
+			return strings.Replace(s, fmt.Sprintf("tile/%d/%d/", t.H, t.L), fmt.Sprintf("tile/%d/%d/", t.H, []int{64, 65, 1000000, 1 << 62}[b>>12%4]), 1)
+		}
 		return s
 	case 1: // leading zero in height
 		return strings.Replace(s, "tile/", "tile/0", 1)
